@@ -140,8 +140,12 @@ def g_json(rng, depth=0):
 def mutate(rng, s):
     if not s:
         return rng.bytes(rng.range(0, 3)).replace(b"\n", b" ")
-    k = rng.below(8)
+    k = rng.below(10)
     i = rng.below(len(s))
+    if k == 8:
+        return s[:i] + bytes([rng.choice(EDGE)]) + s[i + 1:]      # a byte at the edge of the 8 bit range
+    if k == 9:
+        return s[:i] + bytes([rng.choice(EDGE)]) + s[i:]
     if k == 0:
         return s[:i]                                              # truncate
     if k == 1:
@@ -335,14 +339,139 @@ def g_regex_big(rng):
     return b"[a-z]" * rng.choice([100, 400, 409, 410, 1000])
 
 
-RE_SIZES = [0, 1, 2, 3, 4, 5, 6, 8, 10, 16, 30, 31, 32, 33, 62, 63, 64, 65, 66, 80, 128, 200]
+# bytes at which an 8 bit counter / a signed char / an ASCII class test changes its mind
+EDGE = [0x01, 0x7e, 0x7f, 0x80, 0xfe, 0xff]
+BOUND = sorted(set(EDGE + [0x00, 0x1f, 0x20, 0x2f, 0x30, 0x39, 0x3a, 0x40, 0x41, 0x46, 0x47, 0x5a, 0x5b, 0x5c, 0x5d, 0x5e, 0x60, 0x61,
+                           0x66, 0x67, 0x7a, 0x7b, 0x7d, 0xbf, 0xc0, 0xc2, 0xe9, 0xef, 0xf4, 0xf5]))
+
+
+def g_class_bytes(rng):
+    """a bracket expression written byte by byte: members, ranges (both bounds at the edges, reversed, one-element),
+    escapes as member / as lower bound / as the byte after `-`, `]` and `-` in the positions where they are literals"""
+    edge = lambda: bytes([rng.choice(EDGE)]) if rng.chance(3, 4) else rng.choice([b"a", b"z", b"0", b"]", b"-", b"\\", b"^"])
+    body = b"]" if rng.chance(1, 8) else b""
+    for _ in range(rng.range(1, 3)):
+        k = rng.below(8)
+        lo, hi = edge(), edge()
+        if k < 3:
+            if lo > hi and rng.chance(3, 4):
+                lo, hi = hi, lo                       # mostly a valid range; reversed ones are a parse error
+            body += lo + b"-" + hi
+        elif k == 3:
+            body += b"\\" + lo + b"-" + hi            # escaped lower bound
+        elif k == 4:
+            body += lo + b"-\\" + hi                  # the byte after `-` is taken as it is: range lo..backslash
+        elif k == 5:
+            body += b"\\" + lo
+        elif k == 6:
+            body += lo + b"-"                         # a `-` right before the closing bracket is a member
+        else:
+            body += lo
+    return b"[" + (b"^" if rng.chance(1, 3) else b"") + body + b"]"
+
+
+def g_regex_bytes(rng):
+    """(pattern, text): classes and literals made of edge bytes, matched against texts made of edge bytes"""
+    pat = b""
+    for _ in range(rng.range(1, 3)):
+        k = rng.below(6)
+        if k < 3:
+            a = g_class_bytes(rng)
+        elif k == 3:
+            a = bytes([rng.choice(EDGE)])
+        elif k == 4:
+            a = b"\\" + bytes([rng.choice(EDGE)])
+        else:
+            a = b"(" + g_class_bytes(rng) + b")"
+        pat += a + rng.choice([b"", b"", b"*", b"+", b"?", b"{2}", b"{0,2}"])
+    if rng.chance(1, 4):
+        pat = b"^" + pat
+    if rng.chance(1, 4):
+        pat += b"$"
+    text = bytes(rng.choice(EDGE + [0x61, 0x5d, 0x2d, 0x5c]) for _ in range(rng.weighted([(0, 1), (1, 3), (2, 3), (5, 2)])))
+    return pat, text
+
+
+def sweep(rng, full):
+    """deterministic part of the stream: every position where a parser of the family iterates over, compares or indexes
+    with an input byte gets every byte of BOUND (quick: + 16 random ones; thorough: all 256), so that each loop whose bound
+    comes from an input byte is driven to 0x00 / 0xff.  Also: quantifier counts, group counts and alternation lengths at
+    the limits of the regex engine."""
+    L = []
+    vals = list(range(256)) if full else sorted(set(BOUND + [rng.below(256) for _ in range(16)]))
+    e0 = [0x00] + EDGE
+    # regex: both bounds of a range at the edges, plain / negated / escaped bounds; texts at and next to the bounds
+    for lo in e0:
+        for hi in e0:
+            L0, H0 = bytes([lo]), bytes([hi])
+            t = bytes(x for x in (lo, hi, max(hi - 1, 1), min(lo + 1, 255)) if x)
+            for pat in (b"[" + L0 + b"-" + H0 + b"]+", b"[^" + L0 + b"-" + H0 + b"]+", b"[\\" + L0 + b"-" + H0 + b"]", b"[a" + L0 + b"-" + H0 + b"z]$"):
+                L.append("re %s %s" % (hx(pat), hx(t)))
+    for b in vals:
+        B = bytes([b])
+        nz = B if b else b"\x01"
+        L.append("re %s %s" % (hx(B), hx(nz)))
+        L.append("re %s %s" % (hx(b"\\" + B), hx(nz)))
+        L.append("re %s %s" % (hx(b"[" + B + b"]"), hx(nz)))
+        L.append("re %s %s" % (hx(b"[\x01-" + B + b"]+"), hx(b"\x01" + nz)))
+        L.append("re %s %s" % (hx(b"[^" + B + b"-\xff]"), hx(b"\xff" + nz)))
+        L.append("re %s %s" % (hx(b"a{" + B + b"}"), hx(b"a")))
+        # JSON / JS strings: the byte raw, after a backslash, inside \u
+        L.append("json " + hx(b'"' + B + b'"'))
+        L.append("json " + hx(b'"\\' + B + b'"'))
+        L.append("json " + hx(b'"\\u00' + B + b'0"'))
+        L.append("json " + hx(b'["a",' + B + b"]"))
+        L.append("js " + hx(b"'" + B + b"'"))
+        L.append("js " + hx(b"{" + B + b":1}"))
+        L.append("at %s %s" % (hx(DOCS[0]), hx(b"/" + B)))
+        if b:
+            L.append("unesc 34 " + hx(B + b'"'))
+            L.append("unesc 34 " + hx(b"\\" + B + b'"'))
+            L.append("unesc 39 " + hx(b"\\u" + B + b"0000'"))
+            L.append("ptr " + hx(b"/" + B))
+            L.append("ptr " + hx(b"/~" + B))
+            L.append("ptr " + hx(b"/a~" + B + b"/b"))
+            L.append("atoi " + hx(b"1" + B))
+            L.append("atof " + hx(b"1." + B))
+            L.append("num " + hx(b"1" + B))
+            L.append("num " + hx(b"1e" + B))
+            L.append("strtod " + hx(B + b"1"))
+            L.append("strtod " + hx(b"1e" + B))
+            L.append("ini " + hx(b"k" + B + b"=v" + B + b"\n[s" + B + b"]\n" + B + b"x=1"))
+            L.append("split %s %s 1" % (hx(b"a" + B + b"b " + B), hx(B)))
+            L.append("replace %s %s %s" % (hx(b"a" + B + b"b"), hx(B), hx(b"<" + B + b">")))
+        # length delimited entry points take every byte, 0 included
+        L.append("atoi2 " + hx(b"1" + B + b"2"))
+        L.append("atoi2 " + hx(B))
+        L.append("afcmp %s %s" % (hx(b"1" + B), hx(b"1.0")))
+        L.append("hex2bin %s 2" % hx(B + b"0"))
+        L.append("hex2bin %s 1" % hx(b"f" + B))
+        L.append("bin2hex %s 3" % hx(B))
+    # regex: quantifier counts, program sizes, group counts, alternation lengths at the limits
+    for n in (0, 1, 2, 255, 256, 1199, 1200, 8185, 8186, 8187, 8188, 8189, 8190, 8191, 8192, 8193, 65535, 65536, 99999, 100000, 100001,
+              1000009, 1000010, 2147483647, 2147483648, 4294967295, 4294967296):
+        for pat in (b"a{%d}" % n, b"a{0,%d}" % n, b"a{%d,}" % n, b"^a{%d}$" % n, b"(a){%d}" % n):
+            L.append("re %s %s" % (hx(pat), hx(b"aaa")))
+    for a, b in ((90, 91), (64, 128), (2, 4095), (2, 4096), (4096, 2), (1000, 1000), (100000, 100000), (0, 100000), (256, 32)):
+        L.append("re %s %s" % (hx(b"(a{%d}){%d}" % (a, b)), hx(b"aa")))
+    for k in (0, 1, 31, 32, 33, 63, 64, 65, 127, 128, 129):
+        for n in (2 * k, 2 * k + 2, 2 * k + 4, 64, 66, 200):
+            L.append("rem %s %s %d" % (hx(b"^" + b"(a)" * k + b"b"), hx(b"a" * k + b"b"), n))
+        L.append("rem %s %s %d" % (hx(b"|".join(b"(%c)" % (97 + i % 26) for i in range(max(k, 1)))), hx(b"z"), 2 * k + 2))
+    for n in (1, 10, 100, 300, 390, 400, 1021, 1022, 1023, 1024):
+        L.append("re %s %s" % (hx(b"a|" * n + b"b"), hx(b"b")))
+        L.append("re %s %s" % (hx(b"|".join([b"ab"] * n)), hx(b"ab")))
+    return L
+
+
+RE_SIZES = [0, 1, 2, 3, 4, 5, 6, 8, 10, 16, 30, 31, 32, 33, 62, 63, 64, 65, 66, 80, 126, 128, 130, 132, 200]
 
 
 def g_rem(rng):
     """iwre_match with an output array of every size class: (pattern, text, slots).  The pattern has 0..40 capture groups
     of which all / some / none take part in the match (boundaries: group 31 = slots 62/63, the last pair a VM thread
     records; group 32 = the first one it drops)."""
-    k = rng.choice([0, 1, 2, 30, 31, 32, 33, 40]) if rng.chance(1, 3) else rng.range(0, 40)
+    k = rng.choice([0, 1, 2, 30, 31, 32, 33, 40, 63, 64, 65]) if rng.chance(1, 3) else rng.range(0, 40)
     mode = rng.weighted([("all", 5), ("some", 4), ("none", 2), ("one", 3), ("nested", 2)])
     hole = rng.choice([0, k - 1, 29, 30, 31, 32, rng.below(max(k, 1))])
     pat, text = b"", b""
@@ -394,6 +523,8 @@ def g_rem(rng):
         j = rng.below(len(text)); text = text[:j] + b"y" + text[j + 1:]      # (mostly) no match at all
     if rng.chance(1, 10):
         pat, text = g_regex(rng).replace(b"\x00", b""), g_text(rng)
+    elif rng.chance(1, 10):
+        pat, text = g_regex_bytes(rng)
     n = rng.choice(RE_SIZES) if rng.chance(7, 8) else rng.below(211)
     return "rem %s %s %d" % (hx(pat), hx(text), n)
 
@@ -447,6 +578,7 @@ def gen(rng, n):
         L.append("ini " + hx(g_ini(rng)))
         pat = g_regex(rng) if rng.chance(2, 3) else g_regex_bad(rng)
         L.append("re %s %s" % (hx(pat.replace(b"\x00", b"")), hx(g_text(rng))))
+        L.append("re %s %s" % tuple(hx(x) for x in g_regex_bytes(rng)))
         for _ in range(3):
             L.append(g_rem(rng))
     for _ in range(max(2, n // 40)):
@@ -490,8 +622,11 @@ def san_key(err):
     return None
 
 
-CPU_S = 4      # CPU seconds one harness process may use (a batch normally needs a few milliseconds)
-HUNG = set()   # commands with a confirmed non-terminating query in this run: their remaining queries are not run again
+CPU_S = 12     # backstop: CPU seconds one harness process may use (a batch normally needs a few milliseconds)
+WATCHDOG_RC = 77   # the harness' own per-query watchdog (3 s of CPU time per query) fired: its last answer line is TIMEOUT
+HUNG = set()   # commands with confirmed non-terminating queries in this run: their remaining queries are not run again
+HUNG_N = {}    # confirmed watchdog timeouts per command; after HUNG_MAX of them the command is put into HUNG
+HUNG_MAX = 3
 
 
 def _run(cmd, text, timeout, env):
@@ -529,6 +664,25 @@ def run_batch(exe, lines, env_extra, timeout):
             for i in range(min(k, rem)):
                 ans[start + i] = out[i] if todo[i] else None
             break
+        if rc == WATCHDOG_RC and 1 <= k <= rem and out[k - 1] == "TIMEOUT":
+            # termination claim: the query did not finish within its CPU budget.  Confirmed on the query alone (a fresh
+            # process) before it is called non-termination; the query is the replay.
+            for i in range(k - 1):
+                ans[start + i] = out[i] if todo[i] else None
+            c = start + k - 1
+            rc1, out1, err1 = _run(cmd, lines[c] + "\n", timeout, env)
+            if rc1 == 0 and len(out1) >= 2:
+                ans[c] = out1[0]
+            else:
+                ans[c] = "TIMEOUT"
+                name = lines[c].split()[1]
+                HUNG_N[name] = HUNG_N.get(name, 0) + 1
+                if HUNG_N[name] >= HUNG_MAX:
+                    HUNG.add(name)
+                finds.append((c, san_key(err1) or "timeout:%s" % name,
+                              "TIMEOUT: no answer within the per-query CPU budget of the harness watchdog (twice)"))
+            start = c + 1
+            continue
         k = min(k, rem - 1)
         for i in range(k):
             ans[start + i] = out[i] if todo[i] else None
@@ -586,7 +740,7 @@ def load_corpus():
 
 
 def check(run):
-    HUNG.clear()
+    HUNG.clear(); HUNG_N.clear()
     rng = run.rng
     proofs_ok = run.proofs()
     asan = vlib.build_harness("h_safety", "asan")
@@ -594,7 +748,7 @@ def check(run):
     n = 300 if run.tier == "quick" else 40000
     if not proofs_ok:
         n *= 10
-    cmds = load_corpus() + gen(rng, n)
+    cmds = load_corpus() + sweep(rng, run.tier != "quick") + gen(rng, n)
     # de-duplicate, keep order
     seen, uniq = set(), []
     for c in cmds:
@@ -650,7 +804,9 @@ def check(run):
         si = [n for n, _, _, _ in STATES].index(src)
         run.violation({"query": cmds[i], "kind": "sanitizer", "key": key, "errno": 0 if src == "fresh" else eb[i], "state": src,
                        "prefix": STATES[si][3](eb[i]), "report": why[:3]},
-                      "%s on `%s`" % (key, cmds[i][:200]), name=slug(key))
+                      ("%s: the call does not terminate (no answer within the per-query CPU budget of the harness watchdog, "
+                       "confirmed on the query alone) on `%s`" if key.startswith("timeout:") else "%s on `%s`") % (key, cmds[i][:200]),
+                      name=slug(key))
     crashed = set(i for fs in FINDS for i, _, _ in fs)
 
     # ---- oracle 2: the answer is a function of the input alone: all states of the world must give the same complete answer
@@ -703,11 +859,17 @@ def check(run):
         return (not ks) and a == m
     mism = []
     for i in midx:
-        ok = agrees(ansM[i], ansA[i], keysA.get(i, set()), ansB[i])
-        for si in range(1, len(STATES)):
-            ok = ok and agrees(ansMB[i], ANS[si][i], keysB.get(i, set()), ansA[i])
+        # a state in which the query was not run (its command was given up after repeated time-outs) is not compared
+        ran = [si for si in range(len(STATES)) if ANS[si][i] is not None or any(j == i for j, _, _ in FINDS[si])]
+        ok = True
+        for si in ran:
+            if si == 0:
+                ok = ok and agrees(ansM[i], ansA[i], keysA.get(i, set()), ansB[i])
+            else:
+                ok = ok and agrees(ansMB[i], ANS[si][i], keysB.get(i, set()), ansA[i])
         if not ok:
             mism.append(i)
+    mism.sort(key=lambda i: (0 if any(ANS[si][i] == "TIMEOUT" for si in range(len(STATES))) else 1, len(cmds[i])))
     run.cov["traces_validated_against_impl"] = len(midx) - len(mism)
     run.cov["model_variant"] = mout[len(midx) + len(midx2)] if len(mout) > len(midx) + len(midx2) else ""
     run.cov["regex_programs_too_big_for_model"] = sum(1 for i in midx if ansM[i] == "BIG")
@@ -731,7 +893,12 @@ def check(run):
                            "sequences) and a malformed stream (truncated escapes/surrogates, dangling '~', 2^63 and 2^31 "
                            "boundaries, nesting 997..1500, control/high bytes, byte mutations); regex matches into arrays of "
                            "every size class (0, 1, odd, 2..66, 80, 128, 200 slots) with 0..40 groups of which all/some/none take "
-                           "part; every input in an exactly sized heap buffer under ASan+UBSan; each query answered in three "
+                           "part; a deterministic sweep that puts every edge byte (00, 01, 1f..7f, 80, fe, ff; thorough: all 256) into "
+                           "each position where a parser iterates over / compares / indexes with an input byte (regex range "
+                           "bounds, escapes, counts; JSON strings and escapes; pointers; number and hex text; ini; split), "
+                           "regex counts, program sizes, group counts and alternation lengths at their limits; a per-query "
+                           "watchdog (3 s CPU): TIMEOUT = violation of termination; "
+                           "every input in an exactly sized heap buffer under ASan+UBSan; each query answered in three "
                            "states of the world: fresh (errno 0, caller storage and stack zero filled), after-history (shuffled "
                            "order, errno ERANGE/EINVAL, caller storage/stack filled with 0xa5, other heap fill, long-lived "
                            "objects already used once), reused-heap (no sanitizer: glibc hands freed chunks back, fill 0xff); "
